@@ -314,7 +314,7 @@ func validFiles(r *rng, n int, maxCorpus int) [][]byte {
 	return res
 }
 
-var schedules = []string{"-", "s:1", "s:2", "s:3", "s:7", "s:13", "s:4095", "s:4096", "s:4097", "s:8192", "s:1.4096", "s:5.1.9.2", "e", "s:1+e", "s:4096+e"}
+var schedules = []string{"-", "s:1", "s:2", "s:3", "s:7", "s:13", "s:4095", "s:4096", "s:4097", "s:8192", "s:1.4096", "s:5.1.9.2", "e", "s:1+e", "s:4096+e", "z", "s:1+z", "s:7+z", "s:4096+e+z"}
 
 func randSched(r *rng) string {
 	if r.chance(60) {
@@ -374,6 +374,12 @@ func genChains(r *rng, n int, maxCorpus int) CaseSet {
 		if r.chance(30) {
 			cs.Cases = append(cs.Cases, decCase("decode", "000", spec, "-", data))
 			cs.Cases = append(cs.Cases, decCase("integ", "000", spec, "-", data))
+		}
+		// the entry points that stop before the end of the file, with more of the stream behind the
+		// first file: none of them may pull a byte beyond the first frame
+		if r.chance(40) {
+			e := []string{"header", "headerfid", "integhdr"}[r.intn(3)]
+			cs.Cases = append(cs.Cases, decCase(e, "000", spec, "-", data))
 		}
 	}
 	return cs
